@@ -8,3 +8,5 @@ open CaddyModel.C18
 #print axioms placeholders_are_input_slices
 #print axioms substituted_only_if_known_or_emptied
 #print axioms unknown_never_substituted_when_kept
+#print axioms cost_linear
+#print axioms cost_linear_all_modes_full_fails
